@@ -70,7 +70,7 @@ def run_plan(prop, tier, plan, replay=None):
                             level=2, samplek=sim.get("samplek", 6),
                             **{k: v for k, v in sim.items() if k not in ("samplek",)})
             results.append(r)
-    limit = plan.get("limit", (6000, 60000))[0 if tier == "quick" else 1]
+    limit = plan.get("limit", (6000, 30000))[0 if tier == "quick" else 1]
     cases = rc.collect_cases(results, limit=limit)
     stats["cases_emitted_distinct"] = len(cases)
     # (3) conformance: replay into the real code
@@ -137,7 +137,7 @@ UNARY = ["extend", "wextend", "project", "select_rows", "cols", "order"]
 
 # focused simulations: consecutive steps of these families interact through the columns the first one writes
 # (the generator prefers keys / sources / operands written by the previous step)
-def inter(fams, num=(400, 4000), rows=3, steps=2):
+def inter(fams, num=(400, 1500), rows=3, steps=2):
     return dict(what="random %d-call pipelines of %s (step interactions)" % (steps, "/".join(fams)), fams=fams, num=num, rows=rows,
                 steps=steps, **SIMT)
 
@@ -175,7 +175,7 @@ PLAN_C01 = {
         dict(what="all 1-step pipelines over all tables with <=2 rows", fams=UNARY, rows=2, steps=1, level=1,
              tier=("thorough",), **T1),
     ],
-    "sim": dict(what="random pipelines of 3 steps over 2 tables of <=3 rows", num=(1200, 12000), rows=3, steps=3, **SIMT),
+    "sim": dict(what="random pipelines of 3 steps over 2 tables of <=3 rows", num=(1200, 5000), rows=3, steps=3, **SIMT),
     "sims": INTERACTIONS,
     "backends": ("pandas", "sqlite"),
     "differential": {"pandas": "sqlite", "sqlite": "pandas"},
@@ -194,7 +194,7 @@ def nt_rows(case, n=2):
 PLAN_C03 = {
     "mc": [dict(what="laws, one table, <=2 rows, every unary step", fams=UNARY, rows=2, steps=1, level=1, **T1)],
     "emit": [JOIN_SHARED, micro(2, 8), micro(3, 60, ("thorough",)), dict(what="all 1-step pipelines over all tables with <=1 row", fams=UNARY, rows=1, steps=1, level=1, **T1)],
-    "sim": dict(what="random pipelines of 3 steps over 2 tables of <=3 rows", num=(1500, 12000), rows=3, steps=3, **SIMT),
+    "sim": dict(what="random pipelines of 3 steps over 2 tables of <=3 rows", num=(1500, 5000), rows=3, steps=3, **SIMT),
     "backends": ("pandas", "polars", "polars_lazy"),
     "differential": {"polars": "pandas", "polars_lazy": "pandas", "pandas": "polars"},
     "assumptions": ["a raising Polars executor is allowed by the property; counted in outcomes as polars:raised_allowed"],
@@ -203,7 +203,7 @@ PLAN_C03 = {
 PLAN_C02 = {
     "mc": [dict(what="laws, two tables, <=1 row, join/concat", fams=["stack", "binary"], rows=1, steps=2, level=1, **T12)],
     "emit": [micro(2, 8), micro(3, 60, ("thorough",)), dict(what="all 1-step pipelines over all tables with <=1 row", fams=UNARY, rows=1, steps=1, level=1, **T1)],
-    "sim": dict(what="random pipelines of 3 steps over 2 tables of <=3 rows", num=(1500, 12000), rows=3, steps=3, **SIMT),
+    "sim": dict(what="random pipelines of 3 steps over 2 tables of <=3 rows", num=(1500, 5000), rows=3, steps=3, **SIMT),
     "backends": ("pandas", "pg"),
     "level": "other",
     "explanation": "model checking of the reference laws plus replay of TLC-generated behaviours into PostgreSQLModel.to_sql, whose text is "
@@ -223,7 +223,7 @@ PLAN_C08 = {
         dict(what="DeclaredCols, two tables, <=1 row, join/concat", fams=["stack", "binary"], rows=1, steps=2, level=1, **T12),
     ],
     "emit": [micro(2, 8), micro(3, 60, ("thorough",)), dict(what="all 1-step pipelines over all tables with <=1 row", fams=UNARY, rows=1, steps=1, level=1, **T1)],
-    "sim": dict(what="random pipelines of 3 steps over 2 tables of <=3 rows", num=(1500, 12000), rows=3, steps=3, **SIMT),
+    "sim": dict(what="random pipelines of 3 steps over 2 tables of <=3 rows", num=(1500, 5000), rows=3, steps=3, **SIMT),
     "backends": ("pandas", "sqlite", "pg", "polars"),
     "opts": {"values": False, "col_order": True},
     "exec_traces": ("columns", "walk"),
@@ -247,13 +247,13 @@ PLAN_C09 = {
         dict(what="every project / windowed extend over all tables with <=2 rows (one in 40 replayed)",
              fams=["project", "wextend"], rows=2, steps=1, level=1, one_in=40, **T1),
     ],
-    "sim": dict(what="random pipelines around project and windowed extend", fams=AGG, num=(1200, 12000), rows=3, steps=3, **SIMT),
+    "sim": dict(what="random pipelines around project and windowed extend", fams=AGG, num=(1200, 5000), rows=3, steps=3, **SIMT),
     "sims": [inter(["extend", "project"]), inter(["project", "cols"], steps=2), inter(["extend", "wextend"])],
     "backends": ("pandas", "sqlite", "polars"),
     "nontrivial": lambda c: has_op(c, ("project", "wextend")) and nt_rows(c, 2),
     "exec_traces": ("rows",),
     "relevant_ops": ("project", "wextend"),
-    "limit": (6000, 80000),
+    "limit": (6000, 30000),
 }
 
 JOINF = ["stack", "binary", "extend", "select_rows", "cols"]
@@ -266,7 +266,7 @@ PLAN_C16 = {
         dict(what="every join type x key spec over all table pairs with <=1 row (one in 5 replayed)",
              fams=["stack", "binary"], rows=1, steps=2, level=2, one_in=5, **T12),
     ],
-    "sim": dict(what="random pipelines around natural_join", fams=JOINF, num=(1500, 12000), rows=3, steps=3, **SIMT),
+    "sim": dict(what="random pipelines around natural_join", fams=JOINF, num=(1500, 5000), rows=3, steps=3, **SIMT),
     "backends": ("pandas", "sqlite", "pg", "polars"),
     "nontrivial": lambda c: has_op(c, ("join", "joinc")) and all(len(t["rows"]) >= 1 for t in c["inp"].values()),
     "relevant_ops": ("join", "joinc"),
@@ -280,7 +280,7 @@ PLAN_C27 = {
     ],
     "emit": [MICRO_W2, micro(2, 8), micro(3, 60, ("thorough",)), dict(what="every windowed extend over all tables with <=2 rows (one in 30 replayed)", fams=["wextend"],
                   rows=2, steps=1, level=1, one_in=30, **T1)],
-    "sim": dict(what="random pipelines around windowed extend", fams=WINF, num=(1500, 12000), rows=4, steps=2, **SIMT),
+    "sim": dict(what="random pipelines around windowed extend", fams=WINF, num=(1500, 5000), rows=4, steps=2, **SIMT),
     "sims": [inter(["extend", "wextend"], rows=4), inter(["wextend"], rows=4, steps=2)],
     "backends": ("pandas", "sqlite", "polars"),
     "nontrivial": lambda c: has_op(c, ("wextend",)) and nt_rows(c, 2),
@@ -297,7 +297,7 @@ PLAN_C18 = {
     "backends": ("pandas", "sqlite", "polars"),
     "opts": {"variants": [None, "perm", "perm_keepidx", "dupidx", "stridx"]},
     "nontrivial": lambda c: nt_rows(c, 2),
-    "limit": (3000, 30000),
+    "limit": (3000, 12000),
     "assumptions": ["inputs are evaluated as given, row-permuted, and (Pandas) with a shuffled integer index, duplicate "
                     "index labels and a text index; every variant must give the reference bag, and the reference "
                     "sequence directly after a total order_rows"],
@@ -319,7 +319,7 @@ PLAN_C05 = {
     "backends": ("pandas", "sqlite", "pg", "polars"),
     "allow_raise": ("polars", "polars_lazy"),
     "nontrivial": lambda c: nt_rows(c, 1),
-    "limit": (8000, 60000),
+    "limit": (8000, 30000),
     "assumptions": ["scalar methods with an exact documented meaning: arithmetic + - * / // % ** mod remainder (// % on non-negative "
                     "operands and a positive divisor, ** with exponent 0..3), comparisons, and/or/not, maximum/minimum/fmax/fmin, "
                     "coalesce, coalesce_0, abs, sign, negation, floor/ceil on whole numbers, is_null, is_bad, if_else, where, is_in; "
